@@ -3,6 +3,7 @@ import Rpki.Model.Chain
 import Rpki.Model.AsDer
 import Rpki.Model.IpDer
 import Rpki.Model.ResText
+import Rpki.Model.ProvMsg
 namespace Driver.C03
 open Driver Rpki.Chain
 
@@ -61,6 +62,28 @@ def famTag (op : String) : Blk → String := if op.startsWith "as" then asTag el
 
 def handle (toks : List String) (impl : String) : Verdict :=
   match toks with
+  | ["limit", la, l4, l6, a, v4, v6] =>
+    let opt (M : Nat) (s : String) : Option (Option (List Blk)) :=
+      if s = "*" then some none else (parseBlocks s).map fun b => some (fromIter M b)
+    match opt M32 la, opt M128 l4, opt M128 l6, parseBlocks a, parseBlocks v4, parseBlocks v6 with
+    | some la, some l4, some l6, some a, some v4, some v6 =>
+      let set : Rpki.ProvMsg.ResSet := ⟨fromIter M32 a, fromIter M128 v4, fromIter M128 v6⟩
+      let lim : Rpki.ProvMsg.Limit := ⟨la, l4, l6⟩
+      let m := match Rpki.ProvMsg.applyTo lim set with
+        | none => "err"
+        | some r => s!"ok {showChain asTag r.asn};{showChain ipTag r.v4};{showChain ipTag r.v6}"
+      -- the property, on the mathematical sets: every limited type must lie inside the set and is then exactly the
+      -- limit; an unlimited type is the set's own
+      let inside (want have_ : List Blk) : Bool := want.all fun w => (probes M128 [want, have_]).all fun x => !(w.lo ≤ x && x ≤ w.hi) || memb have_ x
+      let fits := (match la with | some w => inside w set.asn | none => true) && (match l4 with | some w => inside w set.v4 | none => true) &&
+                  (match l6 with | some w => inside w set.v6 | none => true)
+      let want := s!"ok {showChain asTag (la.getD set.asn)};{showChain ipTag (l4.getD set.v4)};{showChain ipTag (l6.getD set.v6)}"
+      { model := some m,
+        oracle := if impl = "err" then (if fits then some "a limit inside the entitled set was refused" else none)
+                  else if !fits then some "a limit that exceeds the entitled set was applied"
+                  else if impl ≠ want then some "the limited set is not the limit where one is given and the entitled set elsewhere"
+                  else none }
+    | _, _, _, _, _, _ => badOp "limit args"
   | ["ip-fmt", fam, a] =>
     match parseBlocks a with
     | none => badOp "blocks"
